@@ -51,6 +51,27 @@ arr_real rdata(uint32_t ds, int n) {
     return x;
 }
 
+// read-only input arrays shared by all threads, and processor prototypes every thread copies from: created by the controller
+// before the threads exist and never written by the harness afterwards
+struct InPool {
+    arr_cmplx c;
+    arr_real r;
+    uint64_t h{0};
+};
+std::vector<InPool> g_ins;
+struct Proto {
+    ProcSpec spec;
+    std::unique_ptr<Proc> p;
+};
+std::vector<Proto> g_protos;
+
+uint64_t hash_in(const InPool& p) {
+    Hash h;
+    h.bytes(p.c.data(), size_t(p.c.size()) * sizeof(cmplx_t));
+    h.bytes(p.r.data(), size_t(p.r.size()) * sizeof(real_t));
+    return h.h;
+}
+
 bool make_shared_plan(Shared& s) {
     switch (s.kind) {
     case SK_FFT:
@@ -90,6 +111,18 @@ bool op_valid(const Op& op, size_t nshared) {
     }
     if (k == "fft" || k == "rfft" || k == "ifft") {
         return op.a.size() >= 2 && sz(0, 40000);
+    }
+    if (k == "shin") {
+        return op.a.size() >= 2 && op.iarg(0) >= 2 && sz(0, 8192);
+    }
+    if (k == "proto") {
+        return op.a.size() >= 2 && op.iarg(1) >= 0 && op.iarg(1) <= 2000;
+    }
+    if (k == "onin") {
+        return op.a.size() >= 2 && op.iarg(0) >= 0 && size_t(op.iarg(0)) < g_ins.size() && op.iarg(1) >= 0 && op.iarg(1) <= 7;
+    }
+    if (k == "useproto") {
+        return op.a.size() >= 3 && op.iarg(0) >= 0 && size_t(op.iarg(0)) < g_protos.size() && sz(1, 5000);
     }
     if (k == "irfft") {
         return op.a.size() >= 2 && sz(0) && op.iarg(0) % 2 == 0;
@@ -189,6 +222,82 @@ std::vector<double> do_op(const Op& op, const std::vector<Shared>& sh) {
         const size_t ns = size_t(g) * size_t(pr->granule);
         std::vector<double> x(ns * size_t(pr->in_width));
         Rng d(mix(uint64_t(op.iarg(0)), 0xDA));
+        for (auto& v : x) {
+            v = d.normal();
+        }
+        std::vector<std::vector<double>> ch(static_cast<size_t>(pr->nch));
+        const int cut = (g / 2) * pr->granule;
+        if (cut > 0) {
+            pr->call(x.data(), cut, ch);
+        }
+        pr->call(x.data() + size_t(cut) * size_t(pr->in_width), int(ns) - cut, ch);
+        for (auto& c : ch) {
+            out.insert(out.end(), c.begin(), c.end());
+        }
+    } else if (k == "onin") {
+        // a call whose INPUT is an array that other threads are reading at the same time (const access only)
+        const InPool& p = g_ins[size_t(op.iarg(0))];
+        const int m = p.c.size();
+        switch (int(op.iarg(1))) {
+        case 0:
+            append(out, dsplib::fft(p.c));
+            break;
+        case 1:
+            append(out, dsplib::ifft(p.c));
+            break;
+        case 2:
+            append(out, dsplib::fft(p.r));
+            break;
+        case 3:
+            if (m % 2 == 0) {
+                append(out, dsplib::irfft(p.c));
+            } else {
+                append(out, dsplib::fft(p.c, m + 1));
+            }
+            break;
+        case 4:
+            if (m <= 2000) {
+                append(out, dsplib::xcorr(p.r, p.r));
+            } else {
+                append(out, dsplib::hilbert(p.r));
+            }
+            break;
+        case 5: {
+            dsplib::FftPlan fp(m);
+            dsplib::IfftPlan ip(m);
+            append(out, ip.solve(p.c));
+            append(out, fp.solve(p.c));
+            break;
+        }
+        case 6: {
+            dsplib::FirFilter<real_t> f(rand_coeffs(uint32_t(m), 1 + m % 17));
+            append(out, f.process(p.r));
+            out.push_back(dsplib::sum(p.r));
+            out.push_back(dsplib::rms(p.c));
+            append(out, dsplib::abs(p.c));
+            break;
+        }
+        default: {
+            const arr_cmplx a = p.c;            // copy-construct from the shared array
+            const arr_real b = p.r.slice(0, m, 1);
+            append(out, dsplib::conj(a) * 2.0);
+            append(out, b + p.r);
+            append(out, dsplib::welch(p.r, std::min(m, 64)).pxx);
+            break;
+        }
+        }
+    } else if (k == "useproto") {
+        // every thread copy-constructs its own processor from ONE prototype (concurrent const access to it) and streams
+        // through the copy while other threads stream through theirs: copies are distinct objects
+        const Proto& pt = g_protos[size_t(op.iarg(0))];
+        std::unique_ptr<Proc> pr = pt.p->value_copy ? pt.p->clone() : nullptr;
+        if (!pr) {
+            pr = make_proc(pt.spec);   // handle classes (copies share state by design) and non-copyable ones: a fresh object
+        }
+        const int g = int(op.iarg(1)) / pr->granule + 1;
+        const size_t ns = size_t(g) * size_t(pr->granule);
+        std::vector<double> x(ns * size_t(pr->in_width));
+        Rng d(mix(uint64_t(op.iarg(2)), 0xDB));
         for (auto& v : x) {
             v = d.normal();
         }
@@ -358,6 +467,22 @@ Plan gen_common(uint64_t seed, const std::string& tier, bool first_use) {
         op.a = {double(kind), double(n), double(kind == SK_CZT ? r.range(1, 500) : 0)};
         pl.ops.push_back(op);
     }
+    const int nin = int(r.pick(std::vector<double>{0, 1, 1, 2}));
+    for (int s = 0; s < nin; ++s) {
+        Op op;
+        op.thr = -1;
+        op.kind = "shin";
+        op.a = {double(std::max(2, std::min(pick_len(r), 4096))), double(r.seed32())};
+        pl.ops.push_back(op);
+    }
+    const int nproto = int(r.pick(std::vector<double>{0, 0, 1, 1, 2}));
+    for (int s = 0; s < nproto; ++s) {
+        Op op;
+        op.thr = -1;
+        op.kind = "proto";
+        op.a = {double(r.seed32()), double(r.chance(0.3) ? 0 : r.logi(1, 700))};
+        pl.ops.push_back(op);
+    }
     for (int t = 0; t < nthr; ++t) {
         const int nops = int(r.range(3, 10));
         for (int i = 0; i < nops; ++i) {
@@ -371,6 +496,12 @@ Plan gen_common(uint64_t seed, const std::string& tier, bool first_use) {
             if (nshared > 0 && r.chance(0.35)) {
                 op.kind = "shared";
                 op.a = {double(r.below(uint64_t(nshared))), ds};
+            } else if (nin > 0 && r.chance(0.3)) {
+                op.kind = "onin";
+                op.a = {double(r.below(uint64_t(nin))), double(r.below(8))};
+            } else if (nproto > 0 && r.chance(0.3)) {
+                op.kind = "useproto";
+                op.a = {double(r.below(uint64_t(nproto))), double(r.logi(4, 600)), ds};
             } else if (c < 4) {
                 op.kind = "fft";
                 op.a = {double(r.chance(0.06) ? pick_big_len(r) : pick_len(r)), ds};
@@ -521,8 +652,48 @@ Result exec(const Plan& pl) {
             shared.push_back(s);
         }
     }
+    g_ins.clear();
+    g_protos.clear();
+    set_cur_op("C09 create shared inputs and prototypes");
     for (const auto& op : pl.ops) {
-        if (op.kind == "shplan") {
+        if (op.kind == "shin" || op.kind == "proto") {
+            if (!op_valid(op, 0)) {
+                res.invalid = true;
+                return res;
+            }
+            try {
+                if (op.kind == "shin") {
+                    InPool p;
+                    p.c = cdata(uint32_t(op.iarg(1)), int(op.iarg(0)));
+                    p.r = rdata(uint32_t(op.iarg(1)), int(op.iarg(0)));
+                    p.h = hash_in(p);
+                    g_ins.push_back(std::move(p));
+                } else {
+                    Rng r(mix(uint64_t(op.iarg(0)), 0xC9B));
+                    Proto pt;
+                    pt.spec = gen_proc_spec(r, int(r.below(PK_COUNT)), false);
+                    pt.p = make_proc(pt.spec);
+                    const int pre = int(op.iarg(1)) / pt.p->granule * pt.p->granule;
+                    if (pre > 0) {
+                        // the prototype has already been running: its copies start from a non-trivial state
+                        std::vector<double> x(size_t(pre) * size_t(pt.p->in_width));
+                        Rng d(mix(uint64_t(op.iarg(0)), 0xDC));
+                        for (auto& v : x) {
+                            v = d.normal();
+                        }
+                        std::vector<std::vector<double>> ch(static_cast<size_t>(pt.p->nch));
+                        pt.p->call(x.data(), pre, ch);
+                    }
+                    g_protos.push_back(std::move(pt));
+                }
+            } catch (const std::exception&) {
+                res.invalid = true;
+                return res;
+            }
+        }
+    }
+    for (const auto& op : pl.ops) {
+        if (op.kind == "shplan" || op.kind == "shin" || op.kind == "proto") {
             continue;
         }
         if (!op_valid(op, shared.size()) || op.thr < 0 || op.thr >= nthr) {
@@ -678,6 +849,34 @@ Result exec(const Plan& pl) {
             }
         }
     }
+    for (size_t j = 0; j < g_ins.size() && res.ok; ++j) {
+        if (hash_in(g_ins[j]) != g_ins[j].h) {
+            res.fail("C09:shared-input-modified", fmt("read-only input array #%zu (n=%d), passed by const reference to library calls from several threads, has changed", j, g_ins[j].c.size()));
+        }
+    }
+    {
+        std::map<int, std::set<int>> inusers, protousers;
+        for (int t = 0; t < nthr; ++t) {
+            for (const auto& op : prog[size_t(t)]) {
+                if (op.kind == "onin") {
+                    inusers[int(op.iarg(0))].insert(t);
+                } else if (op.kind == "useproto") {
+                    protousers[int(op.iarg(0))].insert(t);
+                }
+            }
+        }
+        int a = 0, b = 0;
+        for (const auto& kv : inusers) {
+            a += (kv.second.size() >= 2);
+        }
+        for (const auto& kv : protousers) {
+            b += (kv.second.size() >= 2);
+        }
+        res.inc("probe.const_input_array_used_by_2plus_threads", a);
+        res.inc("probe.prototype_copied_and_run_by_2plus_threads", b);
+    }
+    g_protos.clear();
+    g_ins.clear();
     res.inc("probe.plan_handed_over_between_running_threads", slot_uses);
     int contended = 0;
     for (const auto& kv : users) {
